@@ -11,18 +11,20 @@ mkdir "$SCR/repo" && (cd /repo && git ls-files -z | xargs -0 cp --parents -t "$S
 cd "$SCR/repo"
 patch -p1 -s < "$SEED/patch.diff" || { echo "SEED patch-failed"; exit 2; }
 if go build ./... && go test -vet=off -count=1 ./... > "$SCR/suite.log" 2>&1; then SUITE=pass; else SUITE=fail; fi
+mkdir -p "$SCR/repo/$DEST"
 for f in "$SEED"/*_test.go "$SEED"/*.go; do [ -f "$f" ] && cp "$f" "$SCR/repo/$DEST/"; done 2>/dev/null
-if (cd "$SCR/repo/$DEST" && eval go test -vet=off -count=1 $DEMOARGS) > "$SCR/demo_with.log" 2>&1; then WITH=pass; else WITH=fail; fi
+if (cd "$SCR/repo/$DEST" && eval timeout -k 5 600 go test -vet=off -count=1 $DEMOARGS) > "$SCR/demo_with.log" 2>&1; then WITH=pass; else WITH=fail; fi
 patch -p1 -R -s < "$SEED/patch.diff"
 if (cd "$SCR/repo/$DEST" && eval go test -vet=off -count=1 $DEMOARGS) > "$SCR/demo_without.log" 2>&1; then WITHOUT=pass; else WITHOUT=fail; fi
 patch -p1 -s < "$SEED/patch.diff"
 for f in "$SEED"/*_test.go; do [ -f "$f" ] && rm -f "$SCR/repo/$DEST/$(basename "$f")"; done
 OUT="SEED $(basename "$SEED") suite=$SUITE demo_with_change=$WITH demo_without_change=$WITHOUT"
 for ID in "$@"; do
-  VERIF_REPO="$SCR/repo" VERIF_EVIDENCE_DIR="$SCR/evidence" /verif/check "$ID" --tier "${TIER:-quick}" > "$SCR/$ID.log" 2>&1
+  VERIF_REPO="$SCR/repo" VERIF_EVIDENCE_DIR="$SCR/evidence" timeout -k 5 "${SEEDEVAL_TIMEOUT:-1200}" /verif/check "$ID" --tier "${TIER:-quick}" > "$SCR/$ID.log" 2>&1
   case $? in
     1) OUT="$OUT $ID=caught"; grep -m1 '^detail:' "$SCR/$ID.log" | cut -c1-400;;
     0) OUT="$OUT $ID=missed";;
+    124|137) OUT="$OUT $ID=timeout";;
     *) OUT="$OUT $ID=error"; tail -5 "$SCR/$ID.log";;
   esac
 done
